@@ -15,19 +15,23 @@ typedef struct Self { Cache m_cachedPosition; } Self;
 #define XV_NPOS ((size_t)-1)
 /* ghost: ONE tracked node and its index in the list that is on top of the stack now (XV_NPOS: not in it); the stack depth.
    Pushing or popping a list changes the top list, so the tracked node's index becomes some other value */
-const XalanNode* g_node; size_t g_index_in_top; size_t g_depth;
+const XalanNode* g_node; size_t g_index_in_top; size_t g_depth; size_t g_top_len;
 #define POS(ix) ((ix) == XV_NPOS ? (size_t)0 : (ix) + 1)
 #define INV(s) ((s)->m_cachedPosition.m_node == 0 || ((s)->m_cachedPosition.m_node == g_node && (s)->m_cachedPosition.m_index == POS(g_index_in_top)))
 bool xv_stack_empty(const Self* s) __CPROVER_requires(1) __CPROVER_assigns() __CPROVER_ensures(__CPROVER_return_value == (g_depth == 0)) ;
 void xv_stack_push(Self* s, const NodeRefListBase* l) __CPROVER_requires(g_depth < ((size_t)1 << 40)) __CPROVER_assigns(g_depth, g_index_in_top) __CPROVER_ensures(g_depth == __CPROVER_old(g_depth) + 1) ;
 void xv_stack_pop(Self* s) __CPROVER_requires(/* pop of a non-empty stack */ g_depth >= 1) __CPROVER_assigns(g_depth, g_index_in_top) __CPROVER_ensures(g_depth == __CPROVER_old(g_depth) - 1) ;
+size_t xv_top_length(const Self* s) __CPROVER_requires(g_depth >= 1) __CPROVER_assigns() __CPROVER_ensures(__CPROVER_return_value == g_top_len) ;
+/* item(i) of the list on top: the tracked node sits at its index and nowhere else (node lists are duplicate-free, C12) */
+const XalanNode* xv_top_item(const Self* s, size_t i) __CPROVER_requires(g_depth >= 1 && /* inside the list */ i < g_top_len) __CPROVER_assigns()
+__CPROVER_ensures((__CPROVER_return_value == g_node) == (i == g_index_in_top)) ;
 size_t xv_top_index_of(const Self* s, const XalanNode* n) __CPROVER_requires(g_depth >= 1 && n == g_node) __CPROVER_assigns()
 __CPROVER_ensures(__CPROVER_return_value == g_index_in_top && (g_index_in_top == XV_NPOS || g_index_in_top < ((size_t)1 << 40))) ;
 @@FN cache_clear@@
 @@FN pushContextNodeList@@
 @@FN popContextNodeList@@
 @@FN getContextNodeListPosition@@
-static void xv_havoc(Self* s) { const XalanNode *a, *b; size_t i, j, d; g_node = a; g_index_in_top = i; g_depth = d; s->m_cachedPosition.m_node = b; s->m_cachedPosition.m_index = j; }
+static void xv_havoc(Self* s) { const XalanNode *a, *b; size_t i, j, d, tl; g_top_len = tl; g_node = a; g_index_in_top = i; g_depth = d; s->m_cachedPosition.m_node = b; s->m_cachedPosition.m_index = j; }
 void h_pushContextNodeList(void) { xv_havoc(&g_self_obj); pushContextNodeList(&g_self_obj, 0); }
 void h_popContextNodeList(void) { xv_havoc(&g_self_obj); popContextNodeList(&g_self_obj); }
 void h_getContextNodeListPosition(void) { xv_havoc(&g_self_obj); getContextNodeListPosition(&g_self_obj, g_node); }
@@ -38,15 +42,19 @@ R = [(r'm_cachedPosition\.clear\(\);', 'cache_clear(&self->m_cachedPosition);', 
      (r'm_contextNodeListStack\.pop_back\(\);', 'xv_stack_pop(self);', (0, 1)),
      (r'm_contextNodeListStack\.empty\(\)', 'xv_stack_empty(self)', (0, 1)),
      (r'assert\(\(m_cachedPosition\.m_index == 0 && .*?m_cachedPosition\.m_index\)\);', 'assert(self->m_cachedPosition.m_index == POS(xv_top_index_of(self, contextNode)));', (0, 1)),
+     (r'const NodeRefListBase&\s+theList = \*m_contextNodeListStack\.back\(\);', '', (0, 1)),
+     (r'theList\.getLength\(\)', 'xv_top_length(self)', (0, 1)),
+     (r'theList\.item\(([^;]+?)\) == &contextNode', r'xv_top_item(self, \1) == contextNode', (0, 1)),
+     (r'theList\.indexOf\(&contextNode\)', 'xv_top_index_of(self, contextNode)', (0, 2)),
      (r'm_contextNodeListStack\.back\(\)->indexOf\(&contextNode\)', 'xv_top_index_of(self, contextNode)', (0, 1)),
      (r'NodeRefListBase::npos', 'XV_NPOS', (0, 1)),
      (r'&contextNode\b', 'contextNode', (0, 3)),
-     (r'(?<![\w.>])m_cachedPosition\b', 'self->m_cachedPosition', (0, 6)),
+     (r'(?<![\w.>])m_cachedPosition\b', 'self->m_cachedPosition', (0, 12)),
      (r'(?<![\w.>])m_node\b', 'c->m_node', (0, 2))]
 PRE = '__CPROVER_requires(self == &g_self_obj && INV(self))\n'
 UNIT = Unit(
     name='c16_position',
-    props=['C16', 'C11', 'C06'],
+    props=['C16', 'C11', 'C06', 'C02'],
     functions=[
         Fn(XH, r'^\s+clear\(\)\s*$', 'cache_clear', 'static void cache_clear(Cache* c)', rules=R, nloops=0, reach=False, after=r'struct ContextNodeListPositionCache'),
         Fn(XC, r'^XPathExecutionContextDefault::pushContextNodeList\(', 'pushContextNodeList', 'void pushContextNodeList(Self* self, const NodeRefListBase* theList)', rules=R, nloops=0,
@@ -58,21 +66,23 @@ __CPROVER_ensures(/* another list is current now: nothing cached for the old one
 __CPROVER_assigns(self->m_cachedPosition.m_node, self->m_cachedPosition.m_index, g_depth, g_index_in_top)
 __CPROVER_ensures(/* the enclosing list is current again: a position cached for the inner list must not survive */ INV(self) && g_depth == __CPROVER_old(g_depth) - 1)'''),
         Fn(XC, r'^XPathExecutionContextDefault::getContextNodeListPosition\(', 'getContextNodeListPosition', 'size_type getContextNodeListPosition(Self* self, const XalanNode* contextNode)', rules=R, nloops=0,
-           contract=PRE + '''__CPROVER_requires(contextNode == g_node && contextNode != 0 && g_depth >= 1)
+           contract='''__CPROVER_requires(self == &g_self_obj && contextNode == g_node && contextNode != 0 && g_depth >= 1 && g_top_len < ((size_t)1 << 40) && (g_index_in_top == XV_NPOS || g_index_in_top < g_top_len))
 __CPROVER_assigns(self->m_cachedPosition.m_node, self->m_cachedPosition.m_index)
-__CPROVER_ensures(/* position(): index of the node in the current list plus one, 0 when it is not in the list */ __CPROVER_return_value == POS(g_index_in_top) && INV(self))'''),
+__CPROVER_ensures(/* position(): index of the node in the current list plus one, 0 when it is not in the list - WHATEVER the cache held (a predicate shrinks the current list in place, so a cached position can be out of date) */
+    __CPROVER_return_value == POS(g_index_in_top) && INV(self))'''),
     ],
     template=TEMPLATE,
     jobs=[Job('pushContextNodeList', 'h_pushContextNodeList', enforce=['pushContextNodeList'], replace=['xv_stack_push'], reach=['entry:pushContextNodeList'], timeout=120, min_obligations=3),
           Job('popContextNodeList', 'h_popContextNodeList', enforce=['popContextNodeList'], replace=['xv_stack_pop'], reach=['entry:popContextNodeList'], timeout=120, min_obligations=3),
-          Job('getContextNodeListPosition', 'h_getContextNodeListPosition', enforce=['getContextNodeListPosition'], replace=['xv_stack_empty', 'xv_top_index_of'], reach=['entry:getContextNodeListPosition'], timeout=120, min_obligations=3)],
+          Job('getContextNodeListPosition', 'h_getContextNodeListPosition', enforce=['getContextNodeListPosition'], replace=['xv_stack_empty', 'xv_top_index_of', 'xv_top_length', 'xv_top_item'], reach=['entry:getContextNodeListPosition'], timeout=120, min_obligations=3)],
     mutants=[
+        Mutant('cached_position_trusted_blindly', XC, r'if \(m_cachedPosition\.m_node == &contextNode &&\s*m_cachedPosition\.m_index != 0 &&\s*m_cachedPosition\.m_index <= theList\.getLength\(\) &&\s*theList\.item\(m_cachedPosition\.m_index - 1\) == &contextNode\)', 'if (m_cachedPosition.m_node == &contextNode)', expect='WHATEVER the cache held'),
         Mutant('pop_keeps_cache', XC, r'(XPathExecutionContextDefault::popContextNodeList\(\)\s*\{\s*)m_cachedPosition\.clear\(\);', r'\1', expect='enclosing list'),
         Mutant('push_keeps_cache', XC, r'(XPathExecutionContextDefault::pushContextNodeList\(const NodeRefListBase&    theList\)\s*\{\s*)m_cachedPosition\.clear\(\);', r'\1', expect='another list'),
         Mutant('position_zero_based', XC, r'theIndex == NodeRefListBase::npos \? 0 : theIndex \+ 1;', 'theIndex == NodeRefListBase::npos ? 0 : theIndex;', expect='position()'),
         Mutant('clear_does_nothing', XH, r'(clear\(\)\s*\{\s*if \(m_node != 0\)\s*\{\s*)m_node = 0;', r'\1', expect=None),
     ],
     mechanisms=['position() cache of the XPath execution context'],
-    assumptions=['the context-node-list stack is a stack of lists (push_back / pop_back / back); one tracked node, whose index in the top list changes arbitrarily when the top list changes',
+    assumptions=['the context-node-list stack is a stack of lists (push_back / pop_back / back); one tracked node, whose index in the top list changes arbitrarily when the top list changes; the list on top may also be modified in place (XPath::predicates), which is why getContextNodeListPosition is proved for an arbitrary cache content',
                  'NodeRefListBase::indexOf returns the index of the node in that list or npos (lists hold fewer than 2^40 nodes)'],
 )
